@@ -8,7 +8,9 @@ import datagen
 
 EXTRA_COQ_FILES = ('GenFacts/SchemaOK.v',)
 RULE = ('programs with 1..2 frames per logical file and 2..3 logical files; set names distinct per logical file, default for all, '
-        'or partially shared; add_* calls of the logical files interleaved or not. Decoded per-logical-file inventories are compared '
+        'partially shared, or only the ORIGIN set shared; add_* calls of the logical files interleaved or not; single logical files with '
+        '2..3 frames whose channels repeat the same names (kept apart by CHANNEL set names or copy numbers), own data and own row counts. '
+        ' Decoded per-logical-file inventories are compared '
         'with the objects the program added to that logical file. Distinct by (naming, program index).')
 ASSUMPTIONS = []
 PARTIAL = ('the clause "a configuration that would share a set between logical files is rejected" is refuted on the current tree '
@@ -18,8 +20,12 @@ PARTIAL = ('the clause "a configuration that would share a set between logical f
 def run(ctx):
     rng = ctx.rng('progs')
     n = 60 if ctx.tier == 'quick' else 600
-    for k in range(n):
-        prog, naming = apistream.gen_multi_lf(rng)
+    nsame = 12 if ctx.tier == 'quick' else 120
+    for k in range(n + nsame):
+        if k >= n:
+            prog, naming = apistream.gen_frames_same_names(rng), 'frames_same_names'
+        else:
+            prog, naming = apistream.gen_multi_lf(rng)
         r = apistream.run_one(ctx, prog, 'K-api')
         ctx.count('K-api-programs', key=(naming, k))
         ctx.stat('K-lf', 'naming_' + naming)
@@ -45,7 +51,7 @@ def run(ctx):
         shared = {k2 for k2, v in users.items() if len(v) > 1}
         for li, recs in enumerate(lfs):
             hdr = recs[0]
-            want_id = 'LF-%d' % li
+            want_id = 'LF-%d' % li if naming != 'frames_same_names' else 'H'
             if not isinstance(hdr, filemodel.DSet) or hdr.type != 'FILE-HEADER' or hdr.objects[0].attrs['ID'].values != [('text', want_id.ljust(65))]:
                 ctx.violation('logical-files-out-of-creation-order', {**det, 'logical_file': li})
             got = {}
@@ -84,12 +90,19 @@ def run(ctx):
             for ob, nums in counts.items():
                 if nums != list(range(1, len(nums) + 1)):
                     ctx.violation('frame-numbers-not-1..N-per-frame', {**det, 'logical_file': li, 'frame': ob, 'numbers': nums[:20]})
+            # each frame has its OWN row count: the number of its records is the number of rows of its own channels' data
+            created = [s0 for s0 in prog if s0['op'] in ('origin', 'add', 'channel', 'frame')]
             for e in exp.values():
                 if e.tkey == 'frame' and e.lf == li and not shared:
-                    rows = None
-                    for s in prog:
-                        pass
+                    fs = created[e.idx]
+                    refs = [x['i'] for x in fs['channels']['v'] if x.get('t') == 'ref']
+                    rows = [created[i]['data']['rows'] for i in refs if i < len(created) and isinstance(created[i].get('data'), dict)]
+                    if not rows or len(set(rows)) != 1:
+                        continue
+                    got_n = [len(v) for ob, v in counts.items() if ob == (e.origin, e.copy, e.name)]
                     ctx.stat('K-lf', 'frames_checked')
+                    if got_n != [rows[0]]:
+                        ctx.violation('frame-has-not-its-own-number-of-rows', {**det, 'logical_file': li, 'frame': e.name, 'records': got_n, 'rows_of_its_channels': rows[0]})
         if k % 9 == 0:
             ctx.sample({'stream': 'K-lf', 'naming': naming, 'logical_files': len(lfs), 'shared_sets': [str(x) for x in shared][:4]})
 
